@@ -24,9 +24,22 @@ Definition bclass (r : res bool) : list (list nat) :=
   match r with Ok false => [[0]] | Ok true => [[1]] | Raise TypeError => [[2]] | Raise ValueError => [[3]] end.
 Definition zkeys (l : list (Z * Z)) : list key := l.
 """
+# float-valued entry points evaluated on Flocq's binary64 (IEEE 754 round-to-nearest-even as specified in Coq):
+# this checks the OCaml driver's float dictionary (native doubles) against the IEEE semantics on the arithmetic-only
+# parts of the model (no exp/erfc/pow involved)
+HEADER_F = """From Coq Require Import List ZArith Bool.
+From Flocq Require Import IEEE754.Binary IEEE754.Bits.
+From OSV Require Import Num Order Gauss Core Predict RatingOps FloatInst.
+Import ListNotations.
+Definition N64 := B64Num (fun x => x) (fun x => x) (fun x => x) (fun x => x).
+Definition b (z : Z) : binary64 := b64_of_bits z.
+Definition samez (a b : list Z) : bool := if list_eq_dec Z.eq_dec a b then true else false.
+"""
 
 
 def _z(n):
+    if abs(n) >= 1 << 64:       # Coq parses long decimal numerals slowly; hexadecimal ones in linear time
+        return "(%s0x%x)%%Z" % ("-" if n < 0 else "", abs(n))
     return "(%d)%%Z" % n
 
 
@@ -83,6 +96,8 @@ def term_and_expected(case, model_obs):
         if model_obs.get("exc") is not None:
             return None
         r = model_obs["res"]
+        if f in ("unwind", "calcrank") and any(k[0] == "F" and float(k[1]).as_integer_ratio()[1].bit_length() > 130 for k in case["keys"]):
+            return None      # 2^k with k ~ 1000 (subnormal keys) is computed by repeated multiplication in the VM: too slow
         if f == "unwind":
             n = len(case["keys"])
             ks = "zkeys [%s]" % "; ".join(_key(k) for k in case["keys"])
@@ -123,15 +138,49 @@ def term_and_expected(case, model_obs):
     return None
 
 
-def run(pairs, chunk=400, jobs=16):
+def _bits(x):
+    import struct
+    return struct.unpack("<Q", struct.pack("<d", float(x)))[0]
+
+
+def fterm_and_expected(case, model_obs):
+    """(Coq term : list Z, expected list of ints) for the float-valued entry points, or None"""
+    from .impl import fh
+    if model_obs.get("exc") is not None:
+        return None
+    op = case["op"]
+    if op == "order" and case["fn"] == "pysum":
+        xs = case["xs"]
+        return ("[bits_of_b64 (@py_sum binary64 N64 [%s])]" % "; ".join("b %d" % _bits(x) for x in xs),
+                [_bits(fh(model_obs["res"]))])
+    if op == "order" and case["fn"] in ("rankdata", "argsort"):
+        fn = "rank_data" if case["fn"] == "rankdata" else "arg_sort"
+        return ("(map Z.of_nat (%s (@fltb binary64 N64) (@feqb binary64 N64) [%s]))" % (
+            fn, "; ".join("b %d" % _bits(x) for x in case["xs"])), [int(r) for r in model_obs["res"]])
+    if op == "ordinal":
+        a = case["a"]
+        z = case.get("z", 3.0)
+        return ("[bits_of_b64 (@ordinal binary64 N64 (mkRating (b %d) (b %d) 0%%Z NmNone) (b %d))]" % (
+            _bits(a[2]), _bits(a[3]), _bits(z)), [_bits(fh(model_obs["res"]))])
+    return None
+
+
+def run(pairs, chunk=400, jobs=16, fcap=None):
     """pairs: list of (case, model_obs). Returns dict(evaluated=, disagreements=[indices], files=, error=)"""
     items = []
     for idx, (c, m) in enumerate(pairs):
         te = term_and_expected(c, m)
         if te is not None:
             items.append((idx, te[0], te[1]))
-    res = {"evaluated": len(items), "disagreements": [], "error": None, "files": 0}
-    if not items:
+    fitems = []
+    for idx, (c, m) in enumerate(pairs):
+        te = fterm_and_expected(c, m)
+        if te is not None:
+            fitems.append((idx, te[0], te[1]))
+    if fcap is not None:
+        fitems = fitems[:fcap]        # evaluation on Flocq's binary64 inside Coq is slow (~15 ms per case)
+    res = {"evaluated": len(items), "evaluated_on_binary64": len(fitems), "disagreements": [], "error": None, "files": 0}
+    if not items and not fitems:
         return res
     work = tempfile.mkdtemp(prefix="kernel-", dir=os.environ.get("OSV_WORK"))
     try:
@@ -145,6 +194,18 @@ def run(pairs, chunk=400, jobs=16):
                 f.write("Definition got : list (list (list nat)) := [\n  %s].\n" % ";\n  ".join(t for _, t, _ in part))
                 f.write("Definition want : list (list (list nat)) := [\n  %s].\n" % ";\n  ".join(_ll(w) for _, _, w in part))
                 f.write("Definition bad := filter (fun p => negb (same (fst (snd p)) (snd (snd p)))) "
+                        "(combine (seq 0 (length got)) (combine got want)).\n")
+                f.write("Eval vm_compute in (length got, length want, map fst bad).\n")
+            files.append((path, part))
+        for fi in range(0, len(fitems), 60):
+            part = fitems[fi:fi + 60]
+            path = os.path.join(work, "F%d.v" % (fi // 60))
+            with open(path, "w") as f:
+                f.write(HEADER_F)
+                f.write("Definition got : list (list Z) := [\n  %s].\n" % ";\n  ".join(t for _, t, _ in part))
+                f.write("Definition want : list (list Z) := [\n  %s].\n" % ";\n  ".join(
+                    "[%s]" % "; ".join("(%d)%%Z" % w for w in ws) for _, _, ws in part))
+                f.write("Definition bad := filter (fun p => negb (samez (fst (snd p)) (snd (snd p)))) "
                         "(combine (seq 0 (length got)) (combine got want)).\n")
                 f.write("Eval vm_compute in (length got, length want, map fst bad).\n")
             files.append((path, part))
